@@ -124,8 +124,15 @@ def F5():
             print('  %s with two Position streams raises %s: %s' % (name, type(e).__name__, str(e)[:80])); ok = False
     return ok
 
+def F7():
+    a = transform.compute_lla_difference([55, 37, 100], [54, 37, 90])
+    b = transform.compute_lla_difference([55., 37., 100.], [54., 37., 90.])
+    ok = bool(np.allclose(a, b, rtol=0, atol=1e-9))
+    if not ok: print('  compute_lla_difference int form', a, a.dtype, 'float form', b)
+    return ok
+
 if __name__ == '__main__':
-    which = sys.argv[1:] or ['F1', 'F2', 'F3', 'F4', 'F5', 'F6']
+    which = sys.argv[1:] or ['F1', 'F2', 'F3', 'F4', 'F5', 'F6', 'F7']
     for w in which:
         r = globals()[w]()
         print(w, 'PASS' if r else 'FAIL')
